@@ -7,8 +7,10 @@ package remote
 
 import (
 	"fmt"
+	"net"
 	"net/http"
 
+	"github.com/openebs/jiva/rpc"
 	"github.com/openebs/jiva/types"
 )
 
@@ -24,6 +26,14 @@ func NewForVerif(address, controlAddress string, ios types.IOs) *Remote {
 		closeChan:   cc,
 		monitorChan: mc,
 	}
+}
+
+// NewForVerifRPC is NewForVerif with the data path of Factory.Create: the real rpc client on conn, sharing the
+// Remote's closeChan (a transport error puts a token there, as in production).
+func NewForVerifRPC(address, controlAddress string, conn net.Conn) *Remote {
+	r := NewForVerif(address, controlAddress, nil)
+	r.IOs = rpc.NewClient(conn, r.closeChan)
+	return r
 }
 
 // VerifAttach repeats the admission part of Factory.Create for a NewForVerif backend: the replica must report
